@@ -985,3 +985,85 @@ func argsOf0(c *ssa.Call) ssa.Value {
 	}
 	return c.Call.Args[0]
 }
+
+// R-decompressed-length: the record header (CRC protected) says how long the payload is once decompressed. A compressed
+// stream without its own length or checksum (LZW) can be damaged so that it decodes to a plausible shorter or longer
+// value; the sstable value checksum does not always see that (CRC-64 stays in a fixed point over trailing zeros). So every
+// decompression result is compared with the header's uncompressed length before it is returned.
+func ruleDecompressedLength(r *Report) {
+	const rule = "decompressed-length"
+	r.Rule(rule, 8, "in both RecordIO readers every result of Decompress / DecompressWithBuf is checked against the uncompressed length of the record header (a call of a length check that receives len(result), on every path to a success return)")
+	p := r.P
+	for _, fn := range p.FuncsOfPkg("recordio") {
+		sites := CallsIn(fn, Suffix("CompressionI.Decompress", "CompressionI.DecompressWithBuf"))
+		for _, s := range sites {
+			key := uniqKey(r, rule+"/"+FuncKey(fn))
+			r.Saw(fn)
+			res := s.Instr.(ssa.Value)
+			dep := func(v ssa.Value) bool {
+				return valueDependsOn(v, func(x ssa.Value) bool {
+					ex, ok := x.(*ssa.Extract)
+					return ok && ex.Tuple == res && ex.Index == 0
+				})
+			}
+			var checks []Site
+			eachInstr(fn, func(t Site) {
+				c, ok := t.Instr.(*ssa.Call)
+				if !ok {
+					return
+				}
+				sc := c.Call.StaticCallee()
+				if sc == nil || !inModule(sc) {
+					return
+				}
+				if _, hasErr, _ := errResults(c); !hasErr {
+					return
+				}
+				for _, a := range c.Call.Args {
+					if lc, isC := a.(*ssa.Call); isC {
+						if bi, isB := lc.Call.Value.(*ssa.Builtin); isB && bi.Name() == "len" && dep(lc.Call.Args[0]) {
+							checks = append(checks, t)
+						}
+					}
+				}
+			})
+			var succ []Site
+			for _, nr := range nilReturns(fn) {
+				if reachableFromSite(s, nr) {
+					succ = append(succ, nr)
+				}
+			}
+			if len(checks) == 0 {
+				r.Bad(rule, key, s.Pos(), "the decompressed payload is returned without comparing its length with the header's uncompressed size: a damaged LZW stream that decodes to the same prefix with a different number of trailing zeros (8×0xFF followed by zeros: 41 or 44 bytes instead of 48, and the CRC-64 of all of them is ffffffffffffffff) is served as the value")
+				continue
+			}
+			// from the decompression on, no success return may be reached around the check
+			removed := map[Edge]bool{}
+			for _, c := range checks {
+				for _, su := range c.Block.Succs {
+					removed[Edge{c.Block, su}] = true
+				}
+			}
+			around := false
+			for _, su := range s.Block.Succs {
+				reach := reachFrom(su, removed)
+				for _, nr := range succ {
+					inCheckBlock := false
+					for _, c := range checks {
+						if c.Block == nr.Block {
+							inCheckBlock = true
+						}
+					}
+					if reach[nr.Block] && !inCheckBlock {
+						around = true
+					}
+				}
+			}
+			if around {
+				r.Bad(rule, key, s.Pos(), "a success return is reachable from the decompression without passing the length check")
+			} else {
+				r.OK(rule, key, s.Pos(), "len(decompressed) is checked against the header before the record is returned")
+			}
+		}
+	}
+}
